@@ -111,6 +111,16 @@ def gen_exp_inputs(ctx, fmt, v, n):
                 for d in (-1, 0, 1):
                     for s in (0, 1 << (w - 1)):
                         out.append(((b + d) | s,))
+        # the band around the 0.55 ln2 allowance: x = (k + f) ln2 with f next to 1/2 and next to 0.55, k biased to the top of the
+        # range (a slightly wrong 1/ln2 or rounding offset shifts k*... by an amount proportional to |k|)
+        for _ in range(n // 4):
+            k = rng.randint(max(0, (3 * kmax) // 4), kmax) if rng.random() < 0.6 else rng.randint(0, kmax)
+            f_ = rng.choice([rng.uniform(0.5, 0.6), rng.uniform(0.545, 0.575), rng.uniform(0.4, 0.5), rng.uniform(0.5, 0.51)])
+            v_ = ln2 * (k + mpmath.mpf(f_))
+            if v_ >= lim or v_ == 0:
+                continue
+            b = fpx.round_ne(Fraction(int(v_ * mpmath.mpf(2) ** 200), 2 ** 200), fmt)
+            out.append((b | (rng.getrandbits(1) << (w - 1)),))
         limb = fpx.round_ne(Fraction(int(lim * mpmath.mpf(2) ** 100), 2 ** 100), fmt) - 1
         while len(out) < n:
             r = rng.random()
